@@ -6,6 +6,7 @@ pub mod c02;
 pub mod c04;
 pub mod c05;
 pub mod c06;
+pub mod c07;
 pub mod c08;
 pub mod c09;
 pub mod c10;
@@ -30,6 +31,7 @@ pub fn dispatch(pos: &[String], tier: Tier, seed: u64, replay: Option<String>) -
         "C04" => c04::run(tier, seed, replay),
         "C05" => c05::run(tier, seed, replay),
         "C06" => c06::run(tier, seed, replay),
+        "C07" => c07::run(tier, seed, replay),
         "C08" => c08::run(tier, seed, replay),
         "C09" => c09::run(tier, seed, replay),
         "worker" => crate::worker::worker_main(),
